@@ -935,6 +935,25 @@ func (hs *serverHandshakeStateTLS13) sendServerFinished() error {
 
 	c.ekm = hs.suite.exportKeyingMaterial(hs.masterSecret, hs.transcript)
 
+	if h := verifServerHook(c); h != nil && h.ClientEncryptedExtensions != nil {
+		// The client's EncryptedExtensions (ALPS) follows our Finished and precedes its
+		// Certificate/Finished: read it into the transcript before the client Finished
+		// is precomputed below.
+		if _, err := c.flush(); err != nil {
+			return err
+		}
+		msg, err := c.readHandshake(hs.transcript)
+		if err != nil {
+			return err
+		}
+		ee, ok := msg.(*utlsClientEncryptedExtensionsMsg)
+		if !ok {
+			c.sendAlert(alertUnexpectedMessage)
+			return unexpectedMessageError(ee, msg)
+		}
+		h.ClientEncryptedExtensions(ee.raw)
+	}
+
 	// If we did not request client certificates, at this point we can
 	// precompute the client finished and roll the transcript forward to send
 	// session tickets in our first flight.
